@@ -22,7 +22,7 @@ def describe(tier):
     return dict(bounds=dict(roots='BitArray and BitStream x all contents of length <= %d x {fresh, left over from an earlier mutation}; '
                                   'byte-structured roots of 8,16,17,24,25 bits' % (4 if q else 5),
                             plan='depth 1: full menu (~700 events/state); depth 2%s: reduced menu (~90 events); then reduced menu with '
-                                 '<= 1 deviation to depth %d%s' % ('' if q else '-3', 3 if q else 5, ' (quick: depth 3 only from roots of <= 2 bits)' if q else ''),
+                                 '<= 1 deviation to depth %d%s' % ('' if q else ' (3 from roots of <= 2 bits)', 3 if q else 4, ' (quick: depth 3 only from roots of <= 2 bits)' if q else ''),
                             content_cap_bits=CAP, positions='-L-1,-L,-1,0,1,L//2,L-1,L,L+1', operands="'', 0, 1, 01, 110, self"),
                 rule='BFS over event histories with (bits, hidden fingerprint) deduplication; every transition is replayed from the root on '
                      'fresh objects and compared (return value, full content) with the list-of-bits model; non-trivial = the model accepts the '
@@ -320,7 +320,9 @@ def run_shard(shard, acc):
             if len(shard['bits']) <= 2:
                 plan.append(('reduced', 1))
         else:
-            plan = [('full', None), ('reduced', None), ('reduced', None), ('reduced', 1), ('reduced', 1)]
+            plan = [('full', None), ('reduced', None), ('reduced', 1), ('reduced', 1)]
+            if len(shard['bits']) <= 2:
+                plan = [('full', None), ('reduced', None), ('reduced', None), ('reduced', 1)]
         cap = lambda s: len(s) <= CAP
     else:
         plan = [('bytes', None), ('bytes', None if not q else 2)] + ([] if q else [('bytes', 1)])
